@@ -137,7 +137,7 @@ services:
     volumes: ["data:/var/lib/postgresql/data"]
     environment: {POSTGRES_PASSWORD: pw, N: 1, B: true}
     depends_on:
-      cache: {condition: service_healthy, restart: true}
+      cache: {condition: service_healthy, restart: true, required: true}
     links: [cache:c]
   cache:
     image: redis
@@ -178,6 +178,228 @@ secrets:
 configs:
   c_file: {file: ./conf.txt}
   c_content: {content: "hello ${TAG:-x}"}
+`
+
+const corpusRich2 = `
+services:
+  misc:
+    image: misc
+    attach: false
+    blkio_config:
+      weight: 300
+      weight_device: [{path: /dev/sda, weight: 400}]
+      device_read_bps: [{path: /dev/sdb, rate: '12mb'}]
+      device_read_iops: [{path: /dev/sdb, rate: 120}]
+      device_write_bps: [{path: /dev/sdb, rate: '1024k'}]
+      device_write_iops: [{path: /dev/sdb, rate: 30}]
+    cgroup: private
+    cgroup_parent: m-executor-abcd
+    container_name: misc-1
+    cpu_count: 2
+    cpu_percent: 50
+    cpu_period: 50000
+    cpu_quota: 25000
+    cpu_rt_period: 1400
+    cpu_rt_runtime: 400
+    cpu_shares: 73
+    cpus: 0.5
+    cpuset: "0,1"
+    credential_spec: {file: my-credential-spec.json}
+    device_cgroup_rules: ["c 1:3 mr", "a 7:* rmw"]
+    domainname: example.org
+    external_links: [redis, "database:mysql"]
+    gpus: [{driver: nvidia, count: 2, capabilities: [gpu], options: {o: "1"}}]
+    hostname: mischost
+    init: true
+    ipc: shareable
+    isolation: default
+    label_file: [./misc.labels]
+    mac_address: 02:42:ac:11:65:43
+    mem_limit: 300m
+    mem_swappiness: 10
+    memswap_limit: 1g
+    oom_kill_disable: true
+    oom_score_adj: 500
+    pids_limit: 100
+    platform: linux/amd64
+    post_start:
+      - command: ["echo", "hi"]
+        user: root
+        privileged: true
+        working_dir: /
+        environment: [A=b]
+    pre_stop:
+      - command: echo bye
+    privileged: true
+    pull_policy: always
+    read_only: true
+    restart: on-failure:3
+    runtime: runc
+    scale: 1
+    security_opt: ["label=level:s0:c100,c200", "label=type:svirt_apache_t"]
+    stdin_open: true
+    stop_signal: SIGUSR1
+    storage_opt: {size: 1G}
+    tty: true
+    user: "1000:1000"
+    userns_mode: host
+    uts: host
+    volumes_from: ["other:ro", "container:ext"]
+    working_dir: /code
+    links: [other]
+    env_file:
+      - path: ./raw.env
+        format: raw
+    deploy:
+      mode: replicated
+      endpoint_mode: vip
+      rollback_config: {parallelism: 1, delay: 1s, failure_action: pause, monitor: 2s, max_failure_ratio: 0.5, order: start-first}
+      resources:
+        reservations:
+          generic_resources: [{discrete_resource_spec: {kind: gpu, value: 2}}]
+          devices: [{capabilities: [tpu], device_ids: ["0", "1"], options: {k: v}}]
+      placement: {max_replicas_per_node: 2}
+    healthcheck: {disable: true}
+    logging: {driver: syslog}
+    develop:
+      watch:
+        - {path: ./w, action: rebuild}
+        - {path: ./x, action: sync+restart, target: /x}
+  other:
+    image: other
+    mem_reservation: 100m
+    healthcheck: {test: NONE}
+    ports:
+      - {name: web, target: 80, host_ip: 127.0.0.1, published: "8080-8081", protocol: tcp, app_protocol: http, mode: ingress}
+    volumes:
+      - type: bind
+        source: /b
+        target: /b
+        read_only: true
+        consistency: cached
+        bind: {propagation: rshared, create_host_path: false, selinux: z}
+    ulimits: {nofile: 5}
+networks:
+  default:
+    external: true
+    name: outer
+volumes:
+  ext: {external: true}
+secrets:
+  ext_s: {external: true, name: outer_s}
+configs:
+  ext_c: {external: true}
+`
+
+const corpusRich3 = `
+services:
+  b1:
+    image: b1
+    build:
+      context: ./b1
+      cache_to: ["type=local,dest=./cache"]
+      entitlements: [network.host]
+      isolation: default
+      network: host
+      no_cache: true
+      privileged: true
+      pull: true
+      shm_size: 128m
+      target: prod
+      x-build: {k: v}
+    configs:
+      - source: c_env
+        target: /etc/c_env
+        uid: "7"
+        gid: "8"
+        mode: 0444
+        x-sc: 1
+    secrets:
+      - source: s_lab
+        x-ss: 1
+    credential_spec: {config: cs, registry: reg, x-cs: 1}
+    healthcheck:
+      test: ["CMD", "true"]
+      start_interval: 5s
+      x-hc: 1
+    networks:
+      n6:
+        ipv6_address: 2001:db8::5
+        link_local_ips: [169.254.0.5]
+        mac_address: 02:42:ac:11:00:05
+        driver_opts: {o: "1"}
+        x-sn: 1
+    volumes:
+      - type: bind
+        source: /r
+        target: /r
+        bind: {recursive: enabled, x-b: 1}
+        x-v: 1
+      - type: tmpfs
+        target: /t
+        tmpfs: {size: 1024, mode: 0755, x-t: 1}
+      - type: volume
+        source: dv
+        target: /dv
+        volume: {nocopy: true, x-vv: 1}
+    ports:
+      - target: 81
+        x-p: 1
+    depends_on:
+      b2: {condition: service_started, x-d: 1}
+    deploy:
+      x-dep: 1
+      resources:
+        x-res: 1
+        limits: {cpus: "1", x-lim: 1}
+        reservations:
+          generic_resources: [{discrete_resource_spec: {kind: k, value: 1, x-dr: 1}, x-gr: 1}]
+      placement: {x-pl: 1, preferences: [{spread: s, x-pp: 1}]}
+      restart_policy: {condition: any, x-rp: 1}
+      update_config: {parallelism: 1, x-uc: 1}
+    develop:
+      x-dev: 1
+      watch:
+        - {path: ./b1, action: sync+exec, target: /b1, exec: {command: ["echo", "x"]}, x-tr: 1}
+    logging: {driver: none, x-log: 1}
+    blkio_config: {weight: 10, weight_device: [{path: /dev/sda, weight: 5}], device_read_bps: [{path: /dev/sda, rate: 1}]}
+    ulimits: {nofile: {soft: 1, hard: 2, x-ul: 1}}
+    devices:
+      - source: /dev/a
+        target: /dev/b
+        permissions: rw
+        x-dm: 1
+    post_start: [{command: "true", x-hook: 1}]
+  b2:
+    image: b2
+    build:
+      context: .
+      dockerfile_inline: |
+        FROM alpine
+        RUN echo hi
+networks:
+  n6:
+    enable_ipv6: true
+    ipam: {x-ipam: 1, config: [{subnet: 2001:db8::/64, x-pool: 1}]}
+    x-net: 1
+volumes:
+  dv: {driver: local, x-vol: 1}
+secrets:
+  s_lab:
+    file: ./s
+    labels: {sl: "1"}
+    driver: d
+    driver_opts: {o: "1"}
+    template_driver: golang
+    x-sec: 1
+configs:
+  c_env:
+    environment: CENV
+    labels: {cl: "1"}
+    x-cfg: 1
+  c_drv:
+    file: ./c
+    template_driver: golang
 `
 
 const corpusOverride = `
@@ -375,6 +597,8 @@ func CorpusScns() map[string]*Scn {
 		"include": {Files: files("compose.yaml", corpusIncludeMain, "inc/one.yaml", corpusIncludeOne, "inc/one.env", "O=1\n",
 			"inc/.env", "ONETAG=fromdotenv\n", "inc2/two.yaml", corpusIncludeTwo, "inc2/two.env", "TWOTAG=fromenvfile\n", "inc2/two.conf", "c"),
 			Main: []string{"compose.yaml"}, Env: map[string]string{"MAINTAG": "m"}},
+		"rich2": {Files: files("compose.yaml", corpusRich2, "misc.labels", "ML=1\n", "raw.env", "RAW=not interpolated #kept\n"), Main: []string{"compose.yaml"}},
+		"rich3": {Files: files("compose.yaml", corpusRich3, "s", "sec", "c", "cfg"), Main: []string{"compose.yaml"}, Env: map[string]string{"CENV": "CANARY-config-env"}},
 		"profiles":     {Files: files("compose.yaml", corpusProfiles), Main: []string{"compose.yaml"}},
 		"version":      {Files: files("compose.yaml", corpusVersion), Main: []string{"compose.yaml"}},
 		"bad-schema":   {Files: files("compose.yaml", corpusInvalidSchema), Main: []string{"compose.yaml"}},
